@@ -236,7 +236,7 @@ def run(ctx):
     ctx.cov["rule"] = ("credit histories: SETTINGS_INITIAL_WINDOW_SIZE values {0,1,2047,2048,65534..65536,2^31-1,2^31,...} (several per frame), stream/connection "
                        "WINDOW_UPDATE increments {0,1,2,2047,2048,65535,65536,2^31-1,...}, 1-8 streams with response sizes at window +-1 and multiples; uploads in "
                        "(padded) DATA frames by a window-respecting client; non-trivial = the server emitted DATA")
-    found = vlib.judge(ctx, "C06", "h2flow", cases, out_i, out_m, dis, monitor, describe, "h2_h", "H2.H2Flow.step vs h2.c")
+    found = vlib.judge(ctx, "C06", "h2flow", cases, out_i, out_m, dis, monitor, describe, "h2_h", "H2.H2Flow.step vs h2.c", monitor_oracle=True)
     ctx.add_samples([dict(case=c[:300], impl=o[:300]) for c, o in list(zip(cases, out_i))[:: max(1, len(cases) // 5)]][:5])
     if not ok and not found:
         ctx.proof_broken_violation()
